@@ -11,6 +11,8 @@ use bcder::encode::Values;
 fn log_tag(log: &mut Vec<i128>, c: u8, n: u32, cons: bool) { let id = ref_ident(c, cons, n); log.push(id.len() as i128); for b in id { log.push(b as i128); } }
 fn log_bytes(log: &mut Vec<i128>, b: &[u8]) { log.push(b.len() as i128); for x in b { log.push(*x as i128); } }
 
+static OUTER_MODE: std::sync::atomic::AtomicU8 = std::sync::atomic::AtomicU8::new(0);
+
 /// a field: (encoder, decoding step, expected log of that step, tag)
 struct Field { enc: Dyn, dec: Prog, log: Vec<i128>, tag: (u8, u32) }
 
@@ -21,8 +23,17 @@ fn random_field(rng: &mut Rng, depth: u32, used: &mut Vec<(u8, u32)>, der: bool)
     used.push(tag);
     let (c, n) = tag;
     let mut log = vec![1i128];
-    let kind = if depth == 0 { rng.below(7) } else { rng.below(10) };
+    let outer = OUTER_MODE.load(std::sync::atomic::Ordering::Relaxed);
+    let mut kind = if depth == 0 { rng.below(7) } else { rng.below(11) };
+    if kind == 10 && (outer == 1 || used.iter().filter(|t| **t == (0, 4)).count() > 0 || tag == (0, 4)) { kind = 8; }
     match kind {
+        10 => { // OCTET STRING wrapping the encoding (in its own mode) of further values
+               used.pop(); used.push((0, 4));
+               let wm = rng.below(3) as u8;
+               let mut u2 = Vec::new(); let inner = random_field(rng, depth - 1, &mut u2, der);
+               let (inner_enc, body) = match ref_encode(&inner.enc, wm) { Some(b) => (inner.enc, b), None => { let e = Dyn::Bool(2, 1, true); let b = ref_encode(&e, wm).unwrap(); (e, b) } };
+               log_tag(&mut log, 0, 4, false); log.push(0); log_bytes(&mut log, &body);
+               Field { enc: Dyn::Wrapped(wm, Box::new(inner_enc)), dec: Prog::Take { opt: false, kind: 1, exp: Some((0, 4)), body: Body::Generic }, log, tag: (0, 4) } }
         0 => { let ty = rng.below(10) as u8; let bits = [7u32, 15, 31, 63, 126, 8, 16, 32, 64, 126][ty as usize];
                let mag = rng.u128() >> (128 - rng.range(1, bits as u64) as u32); let neg = ty < 5 && rng.bool() && mag != 0;
                log_tag(&mut log, c, n, false); log.push(if neg { -(mag as i128) } else { mag as i128 });
@@ -82,6 +93,7 @@ fn random_fields(rng: &mut Rng, depth: u32, der: bool) -> (Dyn, Vec<Prog>, Vec<i
 pub fn run(em: &mut Emitter, rng: &mut Rng, thorough: bool) {
     for _ in 0..(if thorough { 240_000 } else { 6_000 }) {
         let m = rng.below(3) as u8;
+        OUTER_MODE.store(m, std::sync::atomic::Ordering::Relaxed);
         let (e, d, l) = random_fields(rng, 3, m == 2);
         let rec = Dyn::Cons(0, 16, 1, Box::new(e));
         let prog = vec![Prog::Take { opt: false, kind: 2, exp: Some((0, 16)), body: Body::Prog(d) }];
